@@ -62,8 +62,12 @@ def cases(tier, seed):
                 out.append({"key": f"int3/mask={mask:03b}/l={li}/d={''.join(map(str, dg))}", "grp": "int", "n": 3, "diag": dg, "mask": mask, "letter": list(L)})
     for mask in range(64):
         out.append({"key": f"int4/mask={mask:06b}", "grp": "int", "n": 4, "diag": [0, 1, 0, 2], "mask": mask, "letter": [1, 0, 1, 0]})
-    for n in (2, 3, 4):
+    for n in (2, 3, 4, 8, 12, 17):
         out.append({"key": f"laplace/n={n}", "grp": "laplace", "n": n})
+    for n in (8, 9, 12):
+        for kind in ("mono", "hh"):
+            lam = [float(v) for v in ([3, 3, 2, 1, 1, 1, 0, -1, -2, -2, 5, 7][:n])]
+            out.append({"key": f"spec/n={n}/large/{kind}", "grp": "spec", "n": n, "lam": lam, "kind": kind, "scale": 0})
     for n in (1, 2, 3):
         out.append({"key": f"reject/nonsquare/{n}x{n + 1}", "grp": "rej", "sub": "nonsquare", "n": n})
         out.append({"key": f"reject/nonherm/{n}", "grp": "rej", "sub": "nonherm", "n": n})
